@@ -4,7 +4,8 @@
 # with a behaviour-preserving patch applied; every check must stay silent.
 patch="$(cd "$(dirname "$1")" && pwd)/$(basename "$1")"; shift
 scratch=$(mktemp -d /root/benignrepo-XXXXXX)
-trap 'rm -rf "$scratch"' EXIT
+tag=$(python3 -c "import hashlib,sys;print(hashlib.sha1(sys.argv[1].encode()).hexdigest()[:8])" "$scratch")
+trap 'rm -rf "$scratch" /verif/out/bin/C??-$tag /verif/out/altmod/*$tag* 2>/dev/null' EXIT
 git -C /repo archive HEAD | tar -x -C "$scratch" || exit 2
 (cd "$scratch" && git init -q . && git apply "$patch") || { echo "patch does not apply: $patch"; exit 2; }
 checks="$@"
